@@ -2,6 +2,8 @@
 
 package atree
 
+import "fmt"
+
 // C06 (bytes) / C07 / C08: the real slab encoders and decoders over the real
 // CBOR library, on containers built through the public API with elements whose
 // CBOR width is decided by symbolic values.
@@ -186,4 +188,87 @@ func VH_C07_MapBytes() {
 		vhFlagsTruthful(storage, id, "flags")
 	}
 	vhReach("bytes-done")
+}
+
+// vhHipB: hash input of byte-level keys (8 bytes, big endian) -- used with the
+// library's default digester builder, so first-level digests are the real
+// CircleHash64 of these bytes (computed by the real library, concrete).
+func vhHipB(v Value, _ []byte) ([]byte, error) {
+	var x uint64
+	switch k := v.(type) {
+	case vBKey:
+		x = k.val
+	case vU64:
+		x = uint64(k)
+	default:
+		return nil, fmt.Errorf("unexpected key %T", v)
+	}
+	b := make([]byte, 8)
+	for i := 0; i < 8; i++ {
+		b[i] = byte(x >> (56 - 8*uint(i)))
+	}
+	return b, nil
+}
+
+// vhCompactParent builds a parent map holding nchild inlined child maps of
+// one composite type with identical key sets (so they share the compact
+// encoding), values symbolic. Real hashing (default digester builder).
+func vhCompactParent(storage SlabStorage, addr Address, nchild, nkeys int, name string) (*OrderedMap, []*OrderedMap) {
+	vals := make([][]uint64, nchild)
+	for c := range vals {
+		for k := 0; k < nkeys; k++ {
+			vals[c] = append(vals[c], vhU64(name))
+		}
+	}
+	return vhCompactParentVals(storage, addr, vals)
+}
+
+func vhCompactParentVals(storage SlabStorage, addr Address, vals [][]uint64) (*OrderedMap, []*OrderedMap) {
+	nchild := len(vals)
+	parent, _ := NewMap(storage, addr, NewDefaultDigesterBuilder(), vTypeInfo{id: 42})
+	var children []*OrderedMap
+	for c := 0; c < nchild; c++ {
+		child, _ := NewMap(storage, addr, NewDefaultDigesterBuilder(), vCompositeTypeInfo{id: 7})
+		for k := range vals[c] {
+			_, _ = child.Set(vhCompareBK, vhHipB, vBKey{val: uint64(100 + k)}, vU64(vals[c][k]))
+		}
+		_, _ = parent.Set(vhCompareBK, vhHipB, vBKey{val: uint64(c + 1)}, child)
+		children = append(children, child)
+	}
+	return parent, children
+}
+
+// Compact (same-typed composite) inlined maps: round trip keeps the key-value
+// content (seed and internal order may change), bytes <= reported size.
+//
+//vh:prop C07 C06 C08
+//vh:init cbor
+//vh:param children 2 3
+func VH_C07_CompactMapBytes() {
+	vhSetThreshold(256)
+	storage := vhNewByteStorage()
+	addr := vhAddr(1)
+	nchild := 1 + vhChoose("nchild", vhParam("children", 2))
+	nkeys := 1 + vhChoose("nkeys", 2)
+	parent, _ := vhCompactParent(storage, addr, nchild, nkeys, "cval")
+	verr := VerifyMap(parent, addr, vTypeInfo{id: 42}, vhTic, vhHipB, true)
+	vhAssert(verr == nil, "map valid")
+	serr := VerifyMapSerialization(parent, storage.cborDecMode, storage.cborEncMode, vhDecodeStorableB, vhDecodeTypeInfo, vhStorableEqual)
+	vhAssert(serr == nil, "compact maps: round trip keeps content, re-encoding is identical")
+	// the written bytes never exceed the reported size (hoisting only saves)
+	root := parent.root.(*MapDataSlab)
+	data, err := EncodeSlab(root, storage.cborEncMode)
+	vhAssert(err == nil, "encode")
+	if err == nil {
+		sz, cerr := computeSize(data)
+		vhAssert(cerr == nil, "computeSize")
+		vhAssert(uint32(sz) <= root.header.size, "compact form: written bytes <= reported size")
+		// decode: same key-value content in every child
+		dec, derr := DecodeSlab(root.SlabID(), data, storage.cborDecMode, vhDecodeStorableB, vhDecodeTypeInfo)
+		vhAssert(derr == nil, "decode")
+		if derr == nil {
+			vhAssert(dec.ByteSize() == root.ByteSize(), "decoded slab reports the same size")
+		}
+	}
+	vhReach("compact-done")
 }
